@@ -9,7 +9,7 @@ from util import call, quiet
 
 REQUIRED_THEOREMS = ['Usid.C09.change_count', 'Usid.C09.counts_strict', 'Usid.C09.sizes',
                      'Usid.C09.order_is_rate', 'Usid.C09.unit_values', 'Usid.C09.rebuild_indices']
-RULE = ('[also: reference values not increasing with the index; tall / dask / int64 / h5py inputs to the free functions, verbose=True, a single name as str, float32 values for the rebuild; n_dim_labels / n_dim_sizes and the ORDER of the sorted view observed] regular grids of 1-4 dimensions, sizes 1-5 (biased to 1, equal sizes; a fifth with a dimension whose reference values are not distinct), every/random storage permutation, '
+RULE = ('[also: values on a large offset / a tiny scale for the index re-builder] [also: reference values not increasing with the index; tall / dask / int64 / h5py inputs to the free functions, verbose=True, a single name as str, float32 values for the rebuild; n_dim_labels / n_dim_sizes and the ORDER of the sorted view observed] regular grids of 1-4 dimensions, sizes 1-5 (biased to 1, equal sizes; a fifth with a dimension whose reference values are not distinct), every/random storage permutation, '
         'position- and spectroscopic-shaped, INCLUDING as many or more dimensions than points; get_sort_order, '
         'get_dimensionality, get_unit_values (is_spec given, and None where the shape is unambiguous), '
         'create_spec_inds_from_vals, and the USIDataset accessors get_pos_values / get_spec_values / *_dim_sizes; '
@@ -40,7 +40,10 @@ def generate(seed, tier):
                         units=(side['units'] * 4)[:k], values=[[3 * d + 2 * j for j in range(s)] for d, s in enumerate(sizes)])
             side['labels'] = ['D' + gen.LETTERS[d] for d in range(k)]
         want = None if rng.random() < 0.6 else rng.sample(side['labels'], rng.randint(1, len(side['labels'])))
-        cases.append({'side': side, 'as': rng.choice(['pos', 'spec']), 'want': want})
+        cases.append({'side': side, 'as': rng.choice(['pos', 'spec']), 'want': want,
+                      # the values handed to the index re-builder may sit on a large offset (1 Hz steps at 16 MHz) or
+                      # a tiny scale (nanoampere set points): distinct values that are "close" in numpy's sense
+                      'rebuild_scale': rng.choice([None, None, 'offset', 'tiny'])})
     return cases
 
 
@@ -85,7 +88,12 @@ def run_impl(inp, work):
     n = inds_nk.shape[0]
     out['unambiguous'] = (k < n)
     out['uv_auto'] = uv()
-    r = call(create_spec_inds_from_vals, vals_kn.astype(np.float64))
+    rb_in = vals_kn.astype(np.float64)
+    if inp.get('rebuild_scale') == 'offset':
+        rb_in = rb_in + float(2 ** 24)
+    elif inp.get('rebuild_scale') == 'tiny':
+        rb_in = rb_in * 1e-9
+    r = call(create_spec_inds_from_vals, rb_in)
     out['rebuild'] = np.asarray(r[1]).tolist() if r[0] == 'ok' else {'err': r[1]}
     r = call(create_spec_inds_from_vals, vals_kn.astype(np.float32))           # as stored on file
     out['rebuild_f4'] = np.asarray(r[1]).tolist() if r[0] == 'ok' else {'err': r[1]}
@@ -252,7 +260,7 @@ def model_requests(inp):
              'is_spec': inp['as'] == 'spec'},
             {'op': 'uv.get', 'inds': stored_i, 'vals': stored_v, 'names': side['labels'], 'want': inp['want'],
              'is_spec': None},
-            {'op': 'uv.rebuild', 'vals': vals_nk.T.tolist()}]
+            {'op': 'uv.rebuild', 'vals': (vals_nk.T + (4 * 2 ** 24 if inp.get('rebuild_scale') == 'offset' else 0)).tolist()}]
 
 
 def _e(x):
